@@ -193,6 +193,28 @@ fn c16_for<F: FElem>(out: &mut Vec<String>, rng: &mut Rng, reps: usize) {
             };
             out.push(xf_line(prod, "perm", "0", conf, &d, conf, &dp));
         }
+        if i % 4 == 0 {
+            // shifts that make the sum exactly zero; paired differences that cancel exactly; geometric data balanced around 1
+            let conf = rand_conf(rng);
+            let h = rng.range(2, 9) as usize;
+            let m = rng.range(-12, 12) as f64;
+            let mut xs: Vec<f64> = (0..h).map(|_| rng.range(1, 30) as f64).collect();
+            let neg: Vec<f64> = xs.iter().map(|x| -x).collect();
+            xs.extend(neg); // sums to zero
+            let base: Vec<F> = xs.iter().map(|x| F::from64(x + m)).collect();
+            let shifted: Vec<F> = xs.iter().map(|x| F::from64(*x)).collect();
+            out.push(xf_line("arith", "shift", &F::from64(-m).enc(), conf, &Data::One(base.clone()), conf, &Data::One(shifted.clone())));
+            // paired: the same shift on both samples leaves the differences (which cancel exactly) alone
+            let other: Vec<F> = xs.iter().map(|x| F::from64(x + m - x)).collect();
+            let d1 = Data::Two(base.clone(), other.clone());
+            let d2 = Data::Two(base.iter().map(|v| *v * F::from64(2.0)).collect(), other.iter().map(|v| *v * F::from64(2.0)).collect());
+            out.push(xf_line("paired", "scale", "1", conf, &d1, conf, &d2));
+            // geometric: powers of two balanced around 1 (logs cancel exactly), scaled by 2^e
+            let g: Vec<F> = (0..h).flat_map(|j| { let e = (j as i32 % 5) + 1; [F::from64((2.0f64).powi(e)), F::from64((2.0f64).powi(-e))] }).collect();
+            let e = rng.range(-6, 6);
+            let k = F::from64((2.0f64).powi(e as i32));
+            out.push(xf_line("geo", "scale", &format!("{}", e), conf, &Data::One(g.clone()), conf, &Data::One(g.iter().map(|v| *v * k).collect())));
+        }
         if i % 20 == 0 {
             // all permutations of a small sample
             let base: Vec<F> = sample_f64(rng, 5, 10, 20.0).iter().map(|x| F::from64(*x)).collect();
@@ -243,6 +265,26 @@ fn c10_for<F: FElem>(out: &mut Vec<String>, rng: &mut Rng, reps: usize, grid: us
 
 pub fn c10(out: &mut Vec<String>, rng: &mut Rng, tier: &str) {
     let (reps, grid) = if tier == "thorough" { (120, 12) } else { (25, 4) };
+    // proportion producers at the edge of their domains (few successes / failures) at very high levels
+    for n in [30usize, 100, 1000, 100_000] {
+        for k in [10usize, 11, 12, 14] {
+            for kk in [k, n - k] {
+                for l in [0.99f64, 0.999, 0.9995, 0.99995] {
+                    for prod in ["wilson", "wald"] {
+                        let d: Data<f64> = Data::NK(n, kk);
+                        let est = estimate(prod, &d);
+                        for kind in 1..3u64 {
+                            let (ca, cb) = (conf_of(kind, l), conf_of(0, 2.0 * l - 1.0));
+                            out.push(format!(
+                                "C10 ci2 f {} {} {} {} => {} | {} | {}",
+                                prod, enc_conf(&ca), enc_conf(&cb), enc_data(&d), produce(prod, ca, &d), produce(prod, cb, &d), est
+                            ));
+                        }
+                    }
+                }
+            }
+        }
+    }
     c10_for::<f64>(out, rng, reps, grid);
     c10_for::<f32>(out, rng, reps / 2, grid);
 }
